@@ -80,34 +80,18 @@ theorem overlap_rejects (a b : String) (h : parseExt a = none ∨ parseExt b = n
   C05.overlapExt_nonint_err a b h
 
 theorem overlapSp_rejects (a b : String) (h : spKey a = none ∨ spKey b = none) : overlapSp a b = .err := by
-  unfold overlapSp overlapSpArr
+  unfold overlapSp
   rcases h with h | h
-  · simp [List.mapM_cons, h]
-  · cases ha : spKey a with
-    | none => simp [List.mapM_cons, ha]
-    | some k => simp [List.mapM_cons, ha, overlapSpArr.go, h]
+  · exact C05.sp_rejects [a] [b] a (Or.inl (List.mem_singleton.mpr rfl)) h
+  · exact C05.sp_rejects [a] [b] b (Or.inr (List.mem_singleton.mpr rfl)) h
 
-/-- the first list of the spatial array check is validated completely before anything is compared -/
-theorem overlapSpArr_rejects_first (as bs : List String) (s : String) (hs : s ∈ as) (h : spKey s = none) :
-    overlapSpArr as bs = .err := by
-  unfold overlapSpArr
-  rw [mapM_option_none _ as s hs h]
+/-- array forms: a malformed ID anywhere in either list is an error — also after an overlapping pair and when the other
+list is empty (the early-return defect D14/D18 was repaired by a fix: commit): `C05.arr_rejects`, `C05.sp_rejects` -/
+theorem overlapArr_rejects (as bs : List String) (h : allExt as = false ∨ allExt bs = false) :
+    overlapExtArr as bs = .err := C05.arr_rejects as bs h
 
-/-- array form, the true (weaker) statement: a malformed pair is an error *unless an earlier pair already overlapped*
-(known finding D14: both array checks return at the first overlapping pair) -/
-theorem firstHit_err_of_prefix (pre : List (Outcome Bool)) (rest : List (Outcome Bool))
-    (hpre : ∀ o ∈ pre, o = .ok false) : firstHit (pre ++ .err :: rest) = .err := by
-  induction pre with
-  | nil => rfl
-  | cons o pre ih =>
-    have ho := hpre o List.mem_cons_self
-    subst ho
-    simp only [List.cons_append, firstHit]
-    exact ih (fun o ho => hpre o (List.mem_cons_of_mem _ ho))
-
-/-- witness that the full statement is false of the code (replayed against the implementation by the `reject` family):
-a malformed element after an overlapping pair is never looked at -/
-theorem d14_witness : firstHit [.ok true, .err] = .ok true := rfl
+theorem overlapSpArr_rejects (as bs : List String) (s : String) (hs : s ∈ as ∨ s ∈ bs) (h : spKey s = none) :
+    overlapSpArr as bs = .err := C05.sp_rejects as bs s hs h
 
 /-! ### points -/
 
@@ -188,73 +172,9 @@ theorem never_panic (ids ids2 : List String) (a : String) (H V : Int) (n s : Dy)
    (C11.conversions_no_panic qs ids H V H V).1, (C11.conversions_no_panic qs ids H V H V).2.1,
    (C11.conversions_no_panic qs ids H V H V).2.2⟩
 
-theorem irange_ne_nil (lo hi : Int) (h : lo ≤ hi) : irange lo hi ≠ [] := by
-  intro he
-  have : lo ∈ irange lo hi := (mem_irange lo hi lo).mpr ⟨Int.le_refl _, h⟩
-  rw [he] at this; cases this
-
-theorem pow2_natAbs_pos (d : Int) : 1 ≤ pow2 (d.natAbs : Int) := by
-  have := pow2_pos (d.natAbs : Int) (Int.natCast_nonneg _); omega
-
-theorem zoomOne_ne_nil (H V : Int) (e : Ext) : zoomOne H V e ≠ [] := by
-  have hn := pow2_natAbs_pos (H - e.h)
-  have hm := pow2_natAbs_pos (V - e.v)
-  have hh : hZoomIdx e.h e.x e.y H ≠ [] := by
-    unfold hZoomIdx hZoomMinMax
-    simp only []
-    split <;> [skip; split] <;>
-    · simp only [ne_eq, List.flatMap_eq_nil_iff, not_forall]
-      refine ⟨_, (mem_irange _ _ _).mpr ⟨Int.le_refl _, by omega⟩, ?_⟩
-      simp only [List.map_eq_nil_iff]
-      exact irange_ne_nil _ _ (by omega)
-  have hv : vZoomIdx e.v e.f V ≠ [] := by
-    unfold vZoomIdx vZoomMinMax
-    simp only []
-    split <;> [skip; split] <;> exact irange_ne_nil _ _ (by omega)
-  unfold zoomOne
-  obtain ⟨p, hp⟩ := List.exists_mem_of_ne_nil _ hh
-  obtain ⟨f, hf⟩ := List.exists_mem_of_ne_nil _ hv
-  intro he
-  have : (⟨H, p.1, p.2, V, f⟩ : Ext) ∈ (hZoomIdx e.h e.x e.y H).flatMap fun p => (vZoomIdx e.v e.f V).map fun f' => ⟨H, p.1, p.2, V, f'⟩ :=
-    List.mem_flatMap.mpr ⟨p, hp, List.mem_map.mpr ⟨f, hf, rfl⟩⟩
-  rw [he] at this; cases this
-
-theorem changeExtE_single_ne_nil (e : Ext) (H V : Int) : changeExtE [e] H V ≠ [] := by
-  obtain ⟨o, ho⟩ := List.exists_mem_of_ne_nil _ (zoomOne_ne_nil H V e)
-  intro he
-  have : o ∈ changeExtE [e] H V := by
-    unfold changeExtE; rw [mem_dedup]; simpa using ho
-  rw [he] at this; cases this
-
-/-- the extended overlap check cannot panic on any two strings: the zoom change of one voxel is never empty, so `ids[0]`
-always exists -/
-theorem overlapAt_no_panic (tH tV : Int) (e1 e2 : Ext) : overlapAt tH tV e1 e2 ≠ .panic := by
-  unfold overlapAt
-  have h1 := changeExtE_single_ne_nil e1 tH tV
-  have h2 := changeExtE_single_ne_nil e2 tH tV
-  cases hc1 : changeExtE [e1] tH tV with
-  | nil => exact absurd hc1 h1
-  | cons x xs =>
-    cases hc2 : changeExtE [e2] tH tV with
-    | nil => exact absurd hc2 h2
-    | cons y ys => simp
-
-theorem overlapExtAt_no_panic (tH tV : Int) (a b : String) : overlapExtAt tH tV a b ≠ .panic := by
-  unfold overlapExtAt
-  split
-  · simp
-  · split
-    · exact overlapAt_no_panic _ _ _ _
-    · simp
-
-theorem overlapExt_no_panic (a b : String) : overlapExt a b ≠ .panic := by
-  unfold overlapExt
-  simp only []
-  by_cases h : (splitSlash a).length ≠ 5 ∨ (splitSlash b).length ≠ 5
-  · rw [if_pos h]; simp
-  · rw [if_neg h]; exact overlapExtAt_no_panic _ _ _ _
-
-theorem overlapExtArr_no_panic (as bs : List String) : overlapExtArr as bs ≠ .panic :=
-  C05.arr_no_panic_of_pairs as bs (fun a _ b _ => overlapExt_no_panic a b)
+/-- the overlap checks cannot panic on any strings: `C05.overlapExt_no_panic`, `C05.overlapExtArr_no_panic`, `C05.sp_no_panic` -/
+theorem overlap_no_panic (a b : String) (as bs : List String) :
+    overlapExt a b ≠ .panic ∧ overlapExtArr as bs ≠ .panic ∧ overlapSpArr as bs ≠ .panic :=
+  ⟨C05.overlapExt_no_panic a b, C05.overlapExtArr_no_panic as bs, C05.sp_no_panic as bs⟩
 
 end SpatialId.C15
